@@ -20,6 +20,8 @@ const MAX_LEN: usize = 16_777_215;
 const DEPTHS_QUICK: [usize; 7] = [1, 10, 100, 1_000, 10_000, 100_000, 1_000_000];
 const DEPTHS_THOROUGH: [usize; 9] = [1, 10, 100, 1_000, 10_000, 100_000, 1_000_000, 2_000_000, MAX_LEN / 5];
 const KINDS: usize = 9;
+const RUN_BYTES: [u8; 12] = [0x09, 0x00, 0x01, 0x02, 0x03, 0x05, 0x06, 0x08, 0x0A, 0x0B, 0x0C, 0xFF];
+const RUN_LENS: [usize; 3] = [20_000, 1_000_000, 16_777_215];
 
 fn kind_name(kind: usize) -> &'static str {
     ["nested-strict-arrays", "nested-objects-closed", "nested-objects-unclosed", "nested-ecma-arrays", "mixed-nesting", "nested-arrays-inside-valid-prefix", "array-of-arrays-wide-and-deep", "nested-objects-long-names", "nested-arrays-count-max"][kind]
@@ -277,6 +279,9 @@ impl C14 {
     fn ladder_cases(tier: Tier) -> u64 {
         (KINDS * Self::depths(tier).len() * 3) as u64
     }
+    fn run_cases() -> u64 {
+        (RUN_BYTES.len() * RUN_LENS.len() * 3) as u64
+    }
 }
 
 impl Check for C14 {
@@ -286,8 +291,8 @@ impl Check for C14 {
     fn plan(&self, tier: Tier) -> Plan {
         let ladder = Self::ladder_cases(tier);
         let counts = 14 * 3;
-        let mut p = Plan::new(ladder + counts + tier.pick(1_500, 150_000), tier.pick(35.0, 420.0));
-        p.mandatory = ladder + counts;
+        let mut p = Plan::new(ladder + counts + Self::run_cases() + tier.pick(1_500, 150_000), tier.pick(35.0, 420.0));
+        p.mandatory = ladder + counts + Self::run_cases();
         p.cpu_budget_s = 120.0;
         p.workers = 8;
         p.mem_ceiling = 7 << 30;
@@ -314,6 +319,24 @@ impl Check for C14 {
             return;
         }
         let k2 = k - ladder;
+        let runs = Self::run_cases();
+        if k2 >= 14 * 3 && k2 < 14 * 3 + runs {
+            // long runs of one byte value: every marker (and object-end 09, and FF) repeated
+            let i = (k2 - 14 * 3) as usize;
+            let b = RUN_BYTES[i / (RUN_LENS.len() * 3) % RUN_BYTES.len()];
+            let n = RUN_LENS[(i / 3) % RUN_LENS.len()];
+            let mut input = vec![b; n];
+            if i % 2 == 0 {
+                input.pop();
+                input.push(0x05);
+            }
+            let what = format!("run of {} x byte {:#04x}", n, b);
+            out.count("homogeneous_run_inputs", 1);
+            out.shape(mix(0xB0 + b as u64, n as u64));
+            decode_on_small_stack(input, routes(k2), &what, out);
+            return;
+        }
+        let k2 = if k2 >= 14 * 3 + runs { k2 - runs } else { k2 };
         if k2 < 14 * 3 {
             let (what, input) = build_count_input((k2 / 3) as usize, rng);
             out.count("count_field_inputs", 1);
@@ -383,7 +406,7 @@ impl Check for C14 {
         decode_on_small_stack(input, routes(rng.below(3)), &what, out);
     }
     fn rule(&self) -> String {
-        "each input is decoded on a spawned thread with a 2 MiB stack inside a supervised worker, by one of three routes (rml_amf0::deserialize; MessagePayload{type 20/18/17/15}::to_rtmp_message; a ServerSession receiving it as one type-20 message). Mandatory ladder: 9 nesting kinds (strict arrays, closed and unclosed objects, ECMA arrays, mixed, after a valid command prefix, wide-and-deep, long names, arrays with count 2^32-1) x depths {1,10,100,10^3,10^4,10^5,10^6; thorough adds 2*10^6 and 3,355,443 = 16,777,215/5} x 3 routes; 14 count/length inputs (counts 2^31-1 and 2^32-1 with little or no data, declared 65535-byte strings and names with nothing behind, 16,777,215 one-byte values) x 3 routes; then random, mutated and marker-biased inputs. distinct = (kind, depth, route).".to_string()
+        "each input is decoded on a spawned thread with a 2 MiB stack inside a supervised worker, by one of three routes (rml_amf0::deserialize; MessagePayload{type 20/18/17/15}::to_rtmp_message; a ServerSession receiving it as one type-20 message). Mandatory ladder: 9 nesting kinds (strict arrays, closed and unclosed objects, ECMA arrays, mixed, after a valid command prefix, wide-and-deep, long names, arrays with count 2^32-1) x depths {1,10,100,10^3,10^4,10^5,10^6; thorough adds 2*10^6 and 3,355,443 = 16,777,215/5} x 3 routes; 14 count/length inputs (counts 2^31-1 and 2^32-1 with little or no data, declared 65535-byte strings and names with nothing behind, 16,777,215 one-byte values) x 3 routes; runs of 20,000 / 10^6 / 16,777,215 copies of one byte for each marker value, object-end 09, 0B, 0C and FF, x 3 routes; then random, mutated and marker-biased inputs. distinct = (kind, depth, route).".to_string()
     }
     fn assumptions(&self) -> Vec<String> {
         vec![
@@ -393,7 +416,7 @@ impl Check for C14 {
         ]
     }
     fn required_counters(&self, tier: Tier) -> Vec<String> {
-        let mut v = vec!["count_field_inputs".to_string(), "random_or_mutated_inputs".into(), "route_amf0".into(), "route_payload".into(), "route_session".into(), "decoded_err".into(), "decoded_ok".into()];
+        let mut v = vec!["count_field_inputs".to_string(), "homogeneous_run_inputs".to_string(), "random_or_mutated_inputs".into(), "route_amf0".into(), "route_payload".into(), "route_session".into(), "decoded_err".into(), "decoded_ok".into()];
         for d in Self::depths(tier) {
             v.push(format!("ladder_depth_{}", d));
         }
